@@ -5,7 +5,7 @@ from lib import REPO
 def extract():
     probs = []
     src = open(os.path.join(REPO, "src/generate/generate_statements.rs")).read()
-    m = re.search(r"fn generate_csleep_statement\(&mut self, cycles: i32, pos: usize\)[^{]*\{\s*match cycles \{(.*?)\n        \};\s*Ok\(\(\)\)\s*\}", src, re.S)
+    m = re.search(r"fn generate_csleep_statement\(&mut self, cycles: i32, pos: usize\)[^{]*\{\s*match cycles \{(.*?)\n        \};\s*(?://[^\n]*\n\s*)*(?:self\.flags = FlagsState::Unknown;\s*)?Ok\(\(\)\)\s*\}", src, re.S)
     if not m:
         return "", ["generate_csleep_statement: function shape not recognised"]
     body = m.group(1)
